@@ -21,27 +21,34 @@ def simm (bits : Nat) (v : Int) : Bool := -(2 ^ (bits - 1) : Int) ≤ v ∧ v < 
 def uimm (bits : Nat) (v : Int) : Bool := 0 ≤ v ∧ v < (2 ^ bits : Int)
 def multOf (k : Int) (v : Int) : Bool := v % k = 0
 
+def legalOf (c : Mn32) (ops : List Opnd) : Bool :=
+  match c, ops with
+  | .r _, [.reg rd, .reg rs1, .reg rs2] => isReg rd && isReg rs1 && isReg rs2
+  | .sh _, [.reg rd, .reg rs1, .reg sh] => isReg rd && isReg rs1 && decide (sh < 32)
+  | .i _, [.reg rd, .reg rs1, .imm v] => isReg rd && isReg rs1 && simm 12 v
+  | .ld _, [.reg rd, .reg rs1, .imm v] => isReg rd && isReg rs1 && simm 12 v
+  | .st _, [.reg rs1, .reg rs2, .imm v] => isReg rs1 && isReg rs2 && simm 12 v
+  | .csr _, [.reg rd, .reg src, .imm v] => isReg rd && decide (src < 32) && simm 12 v
+  | .jalr, [.reg rd, .reg rs1, .imm v] => isReg rd && isReg rs1 && simm 12 v && multOf 2 v
+  | .br _, [.reg rs1, .reg rs2, .imm v] => isReg rs1 && isReg rs2 && simm 13 v && multOf 2 v
+  | .lui, [.reg rd, .imm v] => isReg rd && (decide (-0x80000 ≤ v) && decide (v ≤ 0xfffff))
+  | .auipc, [.reg rd, .imm v] => isReg rd && (decide (-0x80000 ≤ v) && decide (v ≤ 0xfffff))
+  | .jal, [.reg rd, .imm v] => isReg rd && simm 21 v && multOf 2 v
+  | .fence, [.imm succ, .imm pred] => uimm 4 succ && uimm 4 pred
+  | .ecall, [] => true
+  | .ebreak, [] => true
+  | .fenceI, [] => true
+  | .sc, [.reg rd, .reg rs1, .reg rs2, .imm aq, .imm rl] =>
+      isReg rd && isReg rs1 && isReg rs2 && uimm 1 aq && uimm 1 rl
+  | .amo _, [.reg rd, .reg rs1, .reg rs2, .imm aq, .imm rl] =>
+      isReg rd && isReg rs1 && isReg rs2 && uimm 1 aq && uimm 1 rl
+  | .lr, [.reg rd, .reg rs1, .imm aq, .imm rl] => isReg rd && isReg rs1 && uimm 1 aq && uimm 1 rl
+  | _, _ => false
+
 def legal32 (name : String) (ops : List Opnd) : Bool :=
-  match ops with
-  | [.reg rd, .reg rs1, .reg x] =>
-    ((rOpOf name).isSome || (shOpOf name).isSome) && isReg rd && isReg rs1 && isReg x
-  | [.reg a, .reg b, .imm v] =>
-    if (iOpOf name).isSome || (ldOpOf name).isSome || (stOpOf name).isSome || (csrOpOf name).isSome then
-      isReg a && isReg b && simm 12 v
-    else if name = "jalr" then isReg a && isReg b && simm 12 v && multOf 2 v
-    else if (brOpOf name).isSome then isReg a && isReg b && simm 13 v && multOf 2 v
-    else false
-  | [.reg rd, .imm v] =>
-    if name = "lui" ∨ name = "auipc" then isReg rd && (decide (-0x80000 ≤ v) && decide (v ≤ 0xfffff))
-    else if name = "jal" then isReg rd && simm 21 v && multOf 2 v
-    else false
-  | [.imm succ, .imm pred] => name = "fence" && uimm 4 succ && uimm 4 pred
-  | [] => name = "ecall" || name = "ebreak" || name = "fence.i"
-  | [.reg rd, .reg rs1, .reg rs2, .imm aq, .imm rl] =>
-    (name = "sc.w" || (amoOpOf name).isSome) && isReg rd && isReg rs1 && isReg rs2 && uimm 1 aq && uimm 1 rl
-  | [.reg rd, .reg rs1, .imm aq, .imm rl] =>
-    name = "lr.w" && isReg rd && isReg rs1 && uimm 1 aq && uimm 1 rl
-  | _ => false
+  match classOf name with
+  | some c => legalOf c ops
+  | none => false
 
 def legal16 (name : String) (ops : List Opnd) : Bool :=
   match name, ops with
